@@ -73,7 +73,8 @@ def systematic(ck, b, nbases, stride):
         kinds = res0.kinds[0]
         points = [n for n, k in enumerate(kinds) if k in X.INTR_POINTS]
         off = rng.randrange(stride)
-        for n in points[off::stride]:
+        chosen = sorted(set(points[off::stride]) | set(n for n in points if kinds[n] in X.RARE_KINDS))
+        for n in chosen:
             sc = X.copy.deepcopy(sc0)
             k = kinds[n]
             act = 'intr:sys:0' if k.startswith('hook') else rng.choice(ACTIONS[:2])
@@ -144,11 +145,14 @@ def run(ck):
     for sc, res, _ in b.items[:400]:
         if len(ck.samples) < 3 and any(e[0] == 'EInterrupt' for e in res.trace):
             ck.sample({'program': sc['program'], 'backend': sc['backend'], 'events': [X.ev_show(e) for e in res.trace[:40]]})
+    X.require_coverage(ck, ['stop-at:%s' % k for k in ('sleep', 'pickle', 'ret', 'start', 'dump', 'lock', 'can_load', 'hook_pre', 'hook_exec1')],
+                       'stop request at every kind of scheduling point')
     b.flush()
     # real `jug execute` processes on a file store, real SIGTERM / SIGINT (the only tier that goes through ExecuteCommand.run,
     # i.e. the SIGTERM handler registration and --no-check-environment)
     from . import execproc
     execproc.signal_runs(ck, ck.n(6, 40))
+    X.require_coverage(ck, ['process-run:term:in-function:delivered', 'process-run:int:in-function:delivered'], 'real signals inside a task function')
 
 
 def replay(obj):
